@@ -1,9 +1,12 @@
 package net
 
 import (
+	"context"
 	"crypto/sha256"
+	"errors"
 	"fmt"
 	stdnet "net"
+	"strings"
 	"sync"
 	"time"
 
@@ -214,7 +217,9 @@ func versionTransfer(c map[string]any, seed int64) ([]map[string]any, error) {
 		}()
 		select {
 		case r := <-och:
-			if r.err != nil {
+			if r.err != nil && isTimeout(r.err) {
+				ev["offer"], ev["detail"] = "noobs", "timed out: "+r.err.Error() // the code's own timers under load: slowness is no observation (the run is judged per pairing)
+			} else if r.err != nil {
 				ev["offer"], ev["detail"] = "err", r.err.Error()
 			} else {
 				select {
@@ -248,7 +253,10 @@ func versionTransfer(c map[string]any, seed int64) ([]map[string]any, error) {
 		}()
 		select {
 		case r := <-fch:
-			if r.err != nil {
+			if r.err != nil && isTimeout(r.err) {
+				ev["fc"] = "noobs"
+				ev["detail"] = fmt.Sprint(ev["detail"], " | fc timed out: ", r.err.Error())
+			} else if r.err != nil {
 				ev["fc"] = "err"
 				ev["detail"] = fmt.Sprint(ev["detail"], " | fc: ", r.err.Error())
 			} else {
@@ -259,4 +267,13 @@ func versionTransfer(c map[string]any, seed int64) ([]map[string]any, error) {
 		out = append(out, ev)
 	}
 	return out, nil
+}
+
+// isTimeout: the error is one of the code's own timers running out (uTP dial / read deadlines, the request context)
+func isTimeout(err error) bool {
+	if errors.Is(err, context.DeadlineExceeded) {
+		return true
+	}
+	m := strings.ToLower(err.Error())
+	return strings.Contains(m, "deadline exceeded") || strings.Contains(m, "timeout") || strings.Contains(m, "timed out")
 }
